@@ -111,7 +111,7 @@ func (r *Replayer) Build() error {
 	}
 	t0 := time.Now()
 	r.Binary = filepath.Join(r.Dir, r.L.PkgName+".replay.test")
-	cmd := exec.Command(GoBinary, "test", "-c", "-tags", "purego", "-vet=off", "-overlay", r.Overlay, "-o", r.Binary, r.L.PkgPath)
+	cmd := exec.Command(GoBinary, "test", "-c", "-tags", BuildTags, "-vet=off", "-overlay", r.Overlay, "-o", r.Binary, r.L.PkgPath)
 	cmd.Dir = RepoDir
 	cmd.Env = goEnv()
 	out, err := cmd.CombinedOutput()
@@ -125,8 +125,8 @@ func (r *Replayer) Build() error {
 
 // GoTestCommand is the from-scratch command line equivalent to what Run does.
 func (r *Replayer) GoTestCommand(assignFile string) string {
-	return fmt.Sprintf("cd %s && GOFLAGS= GOPROXY=off GOSUMDB=off GOTOOLCHAIN=local VERIF_REPLAY=%s %s test -tags purego -vet=off -count=1 -overlay %s -run '^TestVerifReplay$' %s",
-		RepoDir, assignFile, GoBinary, r.Overlay, r.L.PkgPath)
+	return fmt.Sprintf("cd %s && GOFLAGS= GOPROXY=off GOSUMDB=off GOTOOLCHAIN=local VERIF_REPLAY=%s %s test -tags %s -vet=off -count=1 -overlay %s -run '^TestVerifReplay$' %s",
+		RepoDir, assignFile, GoBinary, BuildTags, r.Overlay, r.L.PkgPath)
 }
 
 // Run executes the assignments natively.
